@@ -399,12 +399,84 @@ unfold correct; rewrite Fc, Hc; destruct have; reflexivity.
 Qed.
 End Steps.
 
+(* ---- the measurement path ---- *)
+Lemma final_m_cons o ops st : final_m (o :: ops) st = final_m ops (next o st).
+Proof. reflexivity. Qed.
+
+(* the flags after a word of operations are those after its skip commands alone *)
+Lemma final_m_flags ops : forall st, ms_flags (final_m ops st) = final (skips_of ops) (ms_flags st).
+Proof.
+induction ops as [|o ops IH]; intros st; [reflexivity|].
+rewrite final_m_cons, IH; destruct o; reflexivity.
+Qed.
+
+(* the cursor of the measurement source counts the freeze calls, whatever the skip commands were *)
+Lemma final_m_cursor ops : forall st, ms_cursor (final_m ops st) = ms_cursor st + freezes_of ops.
+Proof.
+induction ops as [|o ops IH]; intros st; [simpl; rewrite <- plus_n_O; reflexivity|].
+rewrite final_m_cons, IH; destruct o; unfold freezes_of; simpl; try reflexivity.
+rewrite <- plus_n_Sm; reflexivity.
+Qed.
+
+Lemma skips_of_calls ops : skips_of (calls_of ops) = [].
+Proof. induction ops as [|o ops IH]; [reflexivity|]; destruct o; simpl; exact IH. Qed.
+
+Lemma freezes_of_calls ops : freezes_of (calls_of ops) = freezes_of ops.
+Proof.
+unfold freezes_of; induction ops as [|o ops IH]; [reflexivity|]; destruct o; simpl; rewrite ?IH; reflexivity.
+Qed.
+
+(* a freeze issued while the correction is skipped still advances the source *)
+Lemma freeze_not_gated st : ms_cursor (next OpFreeze st) = S (ms_cursor st) /\ ms_flags (next OpFreeze st) = ms_flags st.
+Proof. split; reflexivity. Qed.
+
+(* the never-skipped twin (same calls, no skip commands) has the same cursor at the end of every word *)
+Lemma twin_same_cursor ops st : ms_cursor (final_m ops st) = ms_cursor (final_m (calls_of ops) st).
+Proof. rewrite !final_m_cursor, freezes_of_calls; reflexivity. Qed.
+
+Lemma twin_flags ops st : ms_flags (final_m (calls_of ops) st) = ms_flags st.
+Proof. rewrite final_m_flags, skips_of_calls; reflexivity. Qed.
+
+(* reversibility with the measurement state: once everything is switched off again the WHOLE machine state
+   (flags and measurement cursor) is that of the twin *)
+Lemma reversible_m have ops : all_off (final (skips_of ops) (init have)) ->
+  final_m ops (m_init have) = final_m (calls_of ops) (m_init have).
+Proof.
+intros H.
+pose proof (final_m_flags ops (m_init have)) as Hf; simpl in Hf; rewrite (all_off_is_init have _ H) in Hf.
+pose proof (twin_flags ops (m_init have)) as Ht; simpl in Ht.
+pose proof (twin_same_cursor ops (m_init have)) as Hc.
+destruct (final_m ops (m_init have)) as [f c], (final_m (calls_of ops) (m_init have)) as [f' c']; simpl in *.
+rewrite Hf, Ht, Hc; reflexivity.
+Qed.
+
+Section Measured.
+Variable B : Type.
+Variable cstepm : kind -> nat -> B -> B -> B.
+
+(* the correction switched off again: correct() uses the measurement of the LAST freeze call, including
+   the calls issued while it was skipped -- exactly what the never-skipped twin computes *)
+Lemma correct_m_restored have ops k :
+  last_status corr_names false (skips_of ops) = false ->
+  forall pred old,
+    correct_m B cstepm k (final_m ops (m_init have)) pred old = cstepm k (freezes_of ops) pred old /\
+    correct_m B cstepm k (final_m ops (m_init have)) pred old =
+    correct_m B cstepm k (final_m (calls_of ops) (m_init have)) pred old.
+Proof.
+intros Hc pred old.
+assert (E1 : correct_m B cstepm k (final_m ops (m_init have)) pred old = cstepm k (freezes_of ops) pred old).
+{ unfold correct_m, correct; rewrite final_m_flags, final_m_cursor; simpl.
+  destruct (flags_match_commands have (skips_of ops)) as (_ & _ & Fc & _); rewrite Fc, Hc; reflexivity. }
+split; [exact E1|rewrite E1].
+unfold correct_m, correct; rewrite twin_flags, final_m_cursor, freezes_of_calls; simpl.
+destruct have; reflexivity.
+Qed.
+
+(* while skipped: the input, whatever has been frozen *)
+Lemma correct_m_skipped k st pred old : f_corr (ms_flags st) = true -> correct_m B cstepm k st pred old = pred.
+Proof. unfold correct_m, correct; intros ->; reflexivity. Qed.
+End Measured.
+
 (* ---- the observable run used by the correspondence check is the same machine ---- *)
-Lemma run_ops_skips k cs : forall f,
-  run_ops k (map (fun c => OpSkip (fst c) (snd c)) cs) f =
-  (fix go (cs : list cmd) (f : flags) : list obs :=
-     match cs with
-     | [] => []
-     | c :: r => let x := filter_skip (fst c) (snd c) f in ObsSkip (fst x) (snd x) :: go r (snd x)
-     end) cs f.
-Proof. induction cs as [|c cs IH]; intros f; simpl; [reflexivity|rewrite IH; reflexivity]. Qed.
+Lemma run_ops_length k ops : forall st, length (run_ops k ops st) = length ops.
+Proof. induction ops as [|o ops IH]; intros st; simpl; [reflexivity|rewrite IH; reflexivity]. Qed.
